@@ -353,12 +353,24 @@ func c06StripConv(v ssa.Value) ssa.Value {
 
 // c06IsLocalTB reports whether v loads field `field` (QPS/Burst) of the token-bucket
 // member named TokenBucket (the local bucket, not GlobalTokenBucket) of some schema/item.
+// When the load sits in a helper that receives the token-bucket member (or an enclosing
+// struct) as a parameter, the access path is continued into the argument of every call site
+// of the helper: all of them must select the member TokenBucket.
 func c06IsLocalTB(v ssa.Value, field string) bool {
 	if !eng.FieldLoadOf(v, c06TBSchema, field) {
 		return false
 	}
-	_, path := eng.AccessPath(v)
-	return len(path) >= 2 && path[len(path)-1] == field && path[len(path)-2] == "TokenBucket"
+	ups := eng.Current.AccessPathsUp(v)
+	if len(ups) == 0 {
+		return false
+	}
+	for _, up := range ups {
+		path := up.Path
+		if !(len(path) >= 2 && path[len(path)-1] == field && path[len(path)-2] == "TokenBucket") {
+			return false
+		}
+	}
+	return true
 }
 
 // c06IsResizeImpl reports whether fn is a Resize method (2 parameters after the receiver)
@@ -370,25 +382,34 @@ func c06IsResizeImpl(fn *ssa.Function, iface *types.Interface) bool {
 	return implementsIface(fn.Signature.Recv().Type(), iface)
 }
 
-// c06Sources returns the predicates "v is a QPS source" / "v is a Burst source" valid
-// inside fn: the schema's local token-bucket fields and, in a FlowControl.Resize
-// implementation, the first / second parameter of the interface contract
-// Resize(n uint32, burst uint32).
+// c06Sources returns the predicates "v is a QPS source" / "v is a Burst source": the
+// schema's local token-bucket fields and the first / second parameter of a FlowControl.Resize
+// implementation (the interface contract is Resize(n uint32, burst uint32)). Inside a Resize
+// implementation only its own parameters count; elsewhere (a helper the body of Resize or of
+// a constructor was spread over, reached by tracing the helper's parameters into its call
+// sites) the parameters of any Resize implementation do.
 func c06Sources(fn *ssa.Function, iface *types.Interface) (isQPS, isBurst func(ssa.Value) bool) {
-	var pq, pb ssa.Value
 	outer := c06Outermost(fn)
-	if c06IsResizeImpl(outer, iface) {
-		pq, pb = outer.Params[1], outer.Params[2]
+	own := c06IsResizeImpl(outer, iface)
+	isParam := func(v ssa.Value, idx int) bool {
+		p, ok := v.(*ssa.Parameter)
+		if !ok {
+			return false
+		}
+		if own {
+			return p == outer.Params[idx]
+		}
+		return c06IsResizeImpl(p.Parent(), iface) && p == p.Parent().Params[idx]
 	}
-	isQPS = func(v ssa.Value) bool { return (pq != nil && v == pq) || c06IsLocalTB(v, "QPS") }
-	isBurst = func(v ssa.Value) bool { return (pb != nil && v == pb) || c06IsLocalTB(v, "Burst") }
+	isQPS = func(v ssa.Value) bool { return isParam(v, 1) || c06IsLocalTB(v, "QPS") }
+	isBurst = func(v ssa.Value) bool { return isParam(v, 2) || c06IsLocalTB(v, "Burst") }
 	return
 }
 
 // c06CheckPair checks that q derives from a QPS source only and b from a Burst source only.
 func c06CheckPair(c *eng.Ctx, fn *ssa.Function, iface *types.Interface, q, b ssa.Value) (bool, string) {
 	isQ, isB := c06Sources(fn, iface)
-	sl := c.Slicer()
+	sl := c.Slicer().WithUp() // the pair may reach a helper through its parameters
 	var why []string
 	if !sl.DerivesFrom(q, isQ) {
 		why = append(why, "the rate argument does not derive from the token bucket's QPS")
@@ -507,36 +528,36 @@ func c06R1(c *eng.Ctx, iface *types.Interface, impls []c06Impl) {
 // ---- R2 / R2m --------------------------------------------------------------------------
 
 // c06Remembered discovers, per implementer, the fields that remember qps and burst:
-// (i) fields whose loads are compared with the first/second parameter in the type's own
-// Resize, (ii) fields whose loads are passed as (arg0, arg1) of a FlowControl.Resize call
-// in one of the type's methods.
+// (i) fields whose loads are compared with the requested qps/burst (the first/second
+// parameter of the type's own Resize, also when the comparison sits in a helper the body of
+// Resize was spread over and the parameter is handed down to it), (ii) fields whose loads
+// are passed as (arg0, arg1) of a FlowControl.Resize call somewhere in the type's package.
 func c06Remembered(c *eng.Ctx, iface *types.Interface, im c06Impl) (qf, bf map[string]bool) {
 	qf, bf = map[string]bool{}, map[string]bool{}
 	if rs := c.W.DeclaredMethod(im.named, "Resize"); rs != nil && rs.Blocks != nil && len(rs.Params) == 3 {
-		eng.Instrs(rs, func(ins ssa.Instruction) {
-			b, ok := ins.(*ssa.BinOp)
-			if !ok || (b.Op != token.NEQ && b.Op != token.EQL) {
-				return
-			}
-			for _, pr := range [][2]ssa.Value{{b.X, b.Y}, {b.Y, b.X}} {
-				f, isF := c06FieldLoadOfType(c06StripConv(pr[0]), im.tn)
-				if !isF {
-					continue
+		d := &c06Diff{w: c.W, tn: im.tn, rs: rs}
+		for _, fn := range c.W.Region(rs) {
+			eng.Instrs(fn, func(ins ssa.Instruction) {
+				b, ok := ins.(*ssa.BinOp)
+				if !ok || (b.Op != token.NEQ && b.Op != token.EQL) {
+					return
 				}
-				switch c06StripConv(pr[1]) {
-				case ssa.Value(rs.Params[1]):
-					qf[f] = true
-				case ssa.Value(rs.Params[2]):
-					bf[f] = true
+				for _, pr := range [][2]ssa.Value{{b.X, b.Y}, {b.Y, b.X}} {
+					f, isF := c06FieldLoadOfType(c06StripConv(pr[0]), im.tn)
+					if !isF {
+						continue
+					}
+					switch d.reqDim(pr[1], nil, eng.LiftDepth) {
+					case 1:
+						qf[f] = true
+					case 2:
+						bf[f] = true
+					}
 				}
-			}
-		})
+			})
+		}
 	}
 	for _, fn := range c.W.FuncsOf(im.named.Obj().Pkg().Path()) {
-		outer := c06Outermost(fn)
-		if outer.Signature.Recv() == nil || eng.TypeName(outer.Signature.Recv().Type()) != im.tn {
-			continue
-		}
 		for _, ci := range eng.Calls(fn) {
 			if !isFCCall(ci, iface, "Resize") {
 				continue
@@ -570,28 +591,46 @@ func c06R2(c *eng.Ctx, iface *types.Interface, impls []c06Impl) {
 			fcFuncs = append(fcFuncs, c.W.FuncsOf(p)...)
 		}
 	}
-	// ownerOf: the FlowControl implementer into one of whose fields the call result is stored
-	ownerOf := func(call *ssa.Call) string {
-		if call.Referrers() == nil {
+	// ownerOf: the FlowControl implementer into one of whose fields the call result is stored —
+	// directly, or after it was handed as an argument to a repository function that stores the
+	// corresponding parameter (an "install"/"set" helper)
+	var ownerOfValue func(v ssa.Value, depth int) string
+	ownerOfValue = func(v ssa.Value, depth int) string {
+		if v.Referrers() == nil {
 			return ""
 		}
-		for _, r := range *call.Referrers() {
-			st, ok := r.(*ssa.Store)
-			if !ok || st.Val != ssa.Value(call) {
-				continue
-			}
-			if fa, ok := st.Addr.(*ssa.FieldAddr); ok {
-				t := fa.X.Type()
-				if pt, ok := t.Underlying().(*types.Pointer); ok {
-					t = pt.Elem()
+		for _, r := range *v.Referrers() {
+			switch u := r.(type) {
+			case *ssa.Store:
+				if u.Val != v {
+					continue
 				}
-				if implTN[eng.TypeName(t)] {
-					return eng.TypeName(t)
+				if fa, ok := u.Addr.(*ssa.FieldAddr); ok {
+					t := fa.X.Type()
+					if pt, ok := t.Underlying().(*types.Pointer); ok {
+						t = pt.Elem()
+					}
+					if implTN[eng.TypeName(t)] {
+						return eng.TypeName(t)
+					}
+				}
+			case *ssa.Call:
+				callee := u.Call.StaticCallee()
+				if callee == nil || depth <= 0 || !eng.Analysable(callee) {
+					continue
+				}
+				for i, a := range u.Call.Args {
+					if a == v && i < len(callee.Params) {
+						if o := ownerOfValue(callee.Params[i], depth-1); o != "" {
+							return o
+						}
+					}
 				}
 			}
 		}
 		return ""
 	}
+	ownerOf := func(call *ssa.Call) string { return ownerOfValue(call, eng.LiftDepth) }
 	returned := func(call *ssa.Call) bool {
 		res := false
 		eng.Instrs(call.Parent(), func(ins ssa.Instruction) {
@@ -709,29 +748,39 @@ func c06R2(c *eng.Ctx, iface *types.Interface, impls []c06Impl) {
 				continue
 			}
 			k := 0
-			for _, ci := range eng.Calls(sync) {
-				if !isFCCall(ci, iface, "Resize") {
-					continue
-				}
-				a := eng.Args(ci)
-				if len(a) != 2 {
-					continue
-				}
-				if z, isK := eng.IntConst(a[1]); isK && z == 0 {
-					continue // the max-in-flight form Resize(max, 0) belongs to C05
-				}
-				k++
-				ok, why := c06CheckPair(c, sync, iface, a[0], a[1])
-				// the pair must be read from Sync's own schema parameter
-				if ok {
-					for _, x := range a {
-						root, _ := eng.AccessPath(c06StripConv(x))
-						if len(sync.Params) < 2 || root != ssa.Value(sync.Params[1]) {
-							ok, why = false, "the resized limits are not read from the schema handed to Sync"
+			for _, fn := range c.W.Region(sync) { // Sync and the helpers its body was spread over
+				for _, ci := range eng.Calls(fn) {
+					if !isFCCall(ci, iface, "Resize") {
+						continue
+					}
+					a := eng.Args(ci)
+					if len(a) != 2 {
+						continue
+					}
+					if z, isK := eng.IntConst(a[1]); isK && z == 0 {
+						continue // the max-in-flight form Resize(max, 0) belongs to C05
+					}
+					if fn != sync && !c.W.OwnedBy(fn, sync) {
+						continue // a helper shared with other callers: not (only) Sync's resize
+					}
+					k++
+					ok, why := c06CheckPair(c, fn, iface, a[0], a[1])
+					// the pair must be read from Sync's own schema parameter
+					if ok {
+						for _, x := range a {
+							ups := c.W.AccessPathsUp(c06StripConv(x))
+							if len(sync.Params) < 2 || len(ups) == 0 {
+								ok, why = false, "the resized limits are not read from the schema handed to Sync"
+							}
+							for _, up := range ups {
+								if len(sync.Params) < 2 || up.Root != ssa.Value(sync.Params[1]) {
+									ok, why = false, "the resized limits are not read from the schema handed to Sync"
+								}
+							}
 						}
 					}
+					c.Check("R2", sync, fmt.Sprintf("Resize(QPS, Burst)#%d", k), ci.Pos(), ok, why)
 				}
-				c.Check("R2", sync, fmt.Sprintf("Resize(QPS, Burst)#%d", k), ci.Pos(), ok, why)
 			}
 			if k == 0 {
 				c.Fail("R2", sync, "Resize(QPS, Burst)", sync.Pos(), "a changed token-bucket schema is never applied to the existing limiter (it keeps admitting at the old rate)")
@@ -758,24 +807,55 @@ func c06R2(c *eng.Ctx, iface *types.Interface, impls []c06Impl) {
 				}
 				perFn := map[*ssa.Function]int{}
 				for _, st := range stores {
-					fn := st.Parent()
-					perFn[fn]++
-					isQ, isB := c06Sources(fn, iface)
-					want, other := isQ, isB
-					if side.what == "burst" {
-						want, other = isB, isQ
+					// a store in a helper that records one of its parameters stands for one
+					// recording per call site of the helper: it is checked (and counted) in the
+					// context of each caller, against the argument bound there
+					for _, at := range c06StoreContexts(c.W, st, eng.LiftDepth) {
+						fn := at.fn
+						perFn[fn]++
+						isQ, isB := c06Sources(fn, iface)
+						want, other := isQ, isB
+						if side.what == "burst" {
+							want, other = isB, isQ
+						}
+						sl := c.Slicer().WithUp()
+						ok := sl.DerivesFrom(at.val, want) && !sl.DerivesFrom(at.val, other)
+						detail := "remembered " + side.what + " is recorded from a " + side.what + " source"
+						if !ok {
+							detail = fmt.Sprintf("field %s.%s remembers the %s of the bucket (it is compared with / re-applied as the %s argument of Resize) but is stored from a value that is not a %s source", shortName(im.tn), f, side.what, side.what, side.what)
+						}
+						c.Check("R2m", fn, fmt.Sprintf("store %s.%s#%d", shortName(im.tn), f, perFn[fn]), at.pos, ok, detail)
 					}
-					sl := c.Slicer()
-					ok := sl.DerivesFrom(st.Val, want) && !sl.DerivesFrom(st.Val, other)
-					detail := "remembered " + side.what + " is recorded from a " + side.what + " source"
-					if !ok {
-						detail = fmt.Sprintf("field %s.%s remembers the %s of the bucket (it is compared with / re-applied as the %s argument of Resize) but is stored from a value that is not a %s source", shortName(im.tn), f, side.what, side.what, side.what)
-					}
-					c.Check("R2m", fn, fmt.Sprintf("store %s.%s#%d", shortName(im.tn), f, perFn[fn]), st.Pos(), ok, detail)
 				}
 			}
 		}
 	}
+}
+
+// c06StoreCtx is a store seen from the function that supplies the stored value.
+type c06StoreCtx struct {
+	fn  *ssa.Function
+	val ssa.Value
+	pos token.Pos
+}
+
+// c06StoreContexts: the store itself, or — when it stores (a conversion of) a parameter of a
+// helper whose callers are all known — one context per call site with the argument bound there.
+func c06StoreContexts(w *eng.World, st *ssa.Store, depth int) []c06StoreCtx {
+	var expand func(fn *ssa.Function, v ssa.Value, pos token.Pos, d int) []c06StoreCtx
+	expand = func(fn *ssa.Function, v ssa.Value, pos token.Pos, d int) []c06StoreCtx {
+		if p, ok := c06StripConv(v).(*ssa.Parameter); ok && d > 0 {
+			if ups := w.UpArgSites(p); len(ups) > 0 {
+				var out []c06StoreCtx
+				for _, u := range ups {
+					out = append(out, expand(u.Site.Parent(), u.Arg, u.Site.Pos(), d-1)...)
+				}
+				return out
+			}
+		}
+		return []c06StoreCtx{{fn, v, pos}}
+	}
+	return expand(st.Parent(), st.Val, st.Pos(), depth)
 }
 
 // ---- R3 --------------------------------------------------------------------------------
@@ -787,82 +867,55 @@ func c06R3(c *eng.Ctx, iface *types.Interface, impls []c06Impl) {
 		if rs == nil || rs.Blocks == nil || len(rs.Params) != 3 {
 			continue
 		}
-		// stores of a fresh bucket into a field of the receiver type
+		region := c.W.Region(rs)
+		// stores of a fresh bucket into a field of the receiver type, in Resize or in the helpers
+		// its body was spread over
 		var repl []*ssa.Store
-		eng.Instrs(rs, func(ins ssa.Instruction) {
-			st, ok := ins.(*ssa.Store)
-			if !ok {
-				return
-			}
-			if _, own := c06FieldAddrOfType(st.Addr, im.tn); !own {
-				return
-			}
-			if c.Slicer().DerivesFrom(st.Val, func(v ssa.Value) bool { return eng.IsResultOf(v, c06NewBucket) }) {
-				repl = append(repl, st)
-			}
-		})
+		for _, f := range region {
+			eng.Instrs(f, func(ins ssa.Instruction) {
+				st, ok := ins.(*ssa.Store)
+				if !ok {
+					return
+				}
+				if _, own := c06FieldAddrOfType(st.Addr, im.tn); !own {
+					return
+				}
+				// (the fresh bucket may reach a helper of Resize through a parameter)
+				if c.Slicer().WithUp().DerivesFrom(st.Val, func(v ssa.Value) bool { return eng.IsResultOf(v, c06NewBucket) }) {
+					repl = append(repl, st)
+				}
+			})
+		}
 		if len(repl) == 0 {
 			continue
 		}
 		found++
 		qf, bf := c06Remembered(c, iface, im)
-		// change edges: an If edge on which  load(T.f) != param  holds for a remembered field
-		cmpQ, cmpB := false, false
-		changeEdge := func(from *ssa.BasicBlock, succIdx int) bool {
-			if len(from.Instrs) == 0 {
-				return false
-			}
-			iff, ok := from.Instrs[len(from.Instrs)-1].(*ssa.If)
-			if !ok {
-				return false
-			}
-			r := eng.RelOf(iff.Cond, succIdx == 0)
-			if r.Op != token.NEQ {
-				return false
-			}
-			for _, pr := range [][2]ssa.Value{{r.X, r.Y}, {r.Y, r.X}} {
-				f, isF := c06FieldLoadOfType(c06StripConv(pr[0]), im.tn)
-				if !isF {
-					continue
-				}
-				switch c06StripConv(pr[1]) {
-				case ssa.Value(rs.Params[1]):
-					if qf[f] {
-						return true
-					}
-				case ssa.Value(rs.Params[2]):
-					if bf[f] {
-						return true
-					}
-				}
-			}
-			return false
-		}
+		d := &c06Diff{w: c.W, tn: im.tn, rs: rs, qf: qf, bf: bf}
+		differs := d.fact()
 		// which dimensions are compared at all
-		for _, b := range rs.Blocks {
-			for si := range b.Succs {
-				if changeEdge(b, si) {
-					iff := b.Instrs[len(b.Instrs)-1].(*ssa.If)
-					r := eng.RelOf(iff.Cond, si == 0)
-					for _, v := range []ssa.Value{c06StripConv(r.X), c06StripConv(r.Y)} {
-						if v == ssa.Value(rs.Params[1]) {
-							cmpQ = true
-						}
-						if v == ssa.Value(rs.Params[2]) {
-							cmpB = true
-						}
+		cmpQ, cmpB := false, false
+		for _, f := range region {
+			eng.Instrs(f, func(ins ssa.Instruction) {
+				if b, ok := ins.(*ssa.BinOp); ok && (b.Op == token.NEQ || b.Op == token.EQL) {
+					switch d.cmpDim(b.X, b.Y, nil) {
+					case 1:
+						cmpQ = true
+					case 2:
+						cmpB = true
 					}
 				}
-			}
+			})
 		}
 		for k, st := range repl {
 			st := st
-			isRepl := func(ins ssa.Instruction) bool { return ins == ssa.Instruction(st) }
-			x := eng.ReachFromEntry(rs, eng.PathQuery{Target: isRepl, BlockEdge: changeEdge})
-			ok := x == nil && cmpQ && cmpB
+			// the replacement must be unreachable once every edge on which a remembered value is
+			// known to differ from the requested one is removed
+			reach := c.W.ReachFromEntryUp(rs, st, differs.edge)
+			ok := !reach && cmpQ && cmpB
 			detail := "the bucket is replaced only after qps or burst was seen to differ from the remembered value"
 			switch {
-			case x != nil:
+			case reach:
 				detail = "the bucket is replaced on a path where neither qps nor burst was seen to differ from the remembered values: every re-sync hands out a fresh burst (admissions exceed burst + qps·T)"
 			case !cmpQ || !cmpB:
 				detail = "only one of (qps, burst) is compared with its remembered value: a change of the other is never applied"
@@ -882,7 +935,7 @@ func c06R3(c *eng.Ctx, iface *types.Interface, impls []c06Impl) {
 						g, own := c06FieldAddrOfType(s2.Addr, im.tn)
 						return own && g == f
 					}
-					if !eng.AlwaysAfter(st, isRec) && !eng.AlwaysBefore(rs, st, isRec) {
+					if !c06AlwaysAfterUp(c.W, rs, st, isRec, eng.LiftDepth) && !eng.AlwaysBefore(st.Parent(), st, isRec) {
 						rec = false
 					}
 				}
@@ -911,6 +964,114 @@ func c06R3(c *eng.Ctx, iface *types.Interface, impls []c06Impl) {
 			c06SyncUnchanged(c, iface, named, sync)
 		}
 	}
+}
+
+// c06AlwaysAfterUp: every path from ins to an exit of root passes pred; when ins sits in a
+// helper of root's region and the helper may return first, the same must hold after every
+// call site of the helper.
+func c06AlwaysAfterUp(w *eng.World, root *ssa.Function, ins ssa.Instruction, pred func(ssa.Instruction) bool, depth int) bool {
+	if eng.AlwaysAfter(ins, pred) {
+		return true
+	}
+	fn := ins.Parent()
+	if fn == root || depth <= 0 {
+		return false
+	}
+	sites := w.GuardSites(fn)
+	if len(sites) == 0 {
+		return false
+	}
+	for _, s := range sites {
+		if _, plain := s.(*ssa.Call); !plain {
+			return false // go / defer: does not run here
+		}
+		if !c06AlwaysAfterUp(w, root, s, pred, depth-1) {
+			return false
+		}
+	}
+	return true
+}
+
+// c06Diff decides the fact "a remembered value was seen to differ from the requested one"
+// for the Resize method rs of type tn (qf / bf: the fields remembering qps / burst).
+type c06Diff struct {
+	w      *eng.World
+	tn     string
+	rs     *ssa.Function
+	qf, bf map[string]bool
+}
+
+// reqDim reports which requested value v is: 1 the qps parameter of rs, 2 its burst
+// parameter, 0 neither. A parameter of a helper is the requested value when the argument
+// bound to it is — at the call the helper was entered through, or at every call site of a
+// helper whose callers are all known.
+func (d *c06Diff) reqDim(v ssa.Value, fr *callBind, depth int) int {
+	v = c06StripConv(v)
+	p, ok := v.(*ssa.Parameter)
+	if !ok {
+		return 0
+	}
+	if p.Parent() == d.rs {
+		switch p {
+		case d.rs.Params[1]:
+			return 1
+		case d.rs.Params[2]:
+			return 2
+		}
+		return 0
+	}
+	if depth <= 0 {
+		return 0
+	}
+	if a, up, bound := fr.arg(p); bound {
+		return d.reqDim(a, up, depth-1)
+	}
+	ups := d.w.UpArgSites(p)
+	if len(ups) == 0 {
+		return 0
+	}
+	dim := -1
+	for _, u := range ups {
+		x := d.reqDim(u.Arg, nil, depth-1)
+		if dim >= 0 && x != dim {
+			return 0
+		}
+		dim = x
+	}
+	if dim < 0 {
+		return 0
+	}
+	return dim
+}
+
+// cmpDim: x and y are a remembered field of the receiver type and the requested value of
+// the same dimension (in either order); it returns the dimension (0: not such a pair).
+func (d *c06Diff) cmpDim(x, y ssa.Value, fr *callBind) int {
+	for _, pr := range [][2]ssa.Value{{x, y}, {y, x}} {
+		f, isF := c06FieldLoadOfType(c06StripConv(pr[0]), d.tn)
+		if !isF {
+			continue
+		}
+		switch d.reqDim(pr[1], fr, eng.LiftDepth) {
+		case 1:
+			if d.qf[f] {
+				return 1
+			}
+		case 2:
+			if d.bf[f] {
+				return 2
+			}
+		}
+	}
+	return 0
+}
+
+// fact: the boolean fact "a remembered value differs from the requested one"; its atoms are
+// the relations  remembered-field != requested-value.
+func (d *c06Diff) fact() *boolFact {
+	return &boolFact{w: d.w, atom: func(r eng.Rel, fr *callBind) bool {
+		return r.Op == token.NEQ && d.cmpDim(r.X, r.Y, fr) != 0
+	}}
 }
 
 // c06SyncUnchanged checks the early return of a wrapper's Sync(cfg): the new configuration
@@ -956,7 +1117,7 @@ func c06SyncUnchanged(c *eng.Ctx, iface *types.Interface, named *types.Named, sy
 		c.Fail("R3", sync, "unchanged configuration ⇒ no effect", sync.Pos(), "Sync does not compare the new configuration with the remembered one: an identical re-sync reaches Resize / limiter construction")
 		return
 	}
-	isEffect := func(ins ssa.Instruction) bool {
+	isEffect0 := func(ins ssa.Instruction) bool {
 		if ci, ok := ins.(ssa.CallInstruction); ok {
 			if isFCCall(ci, iface, "Resize") {
 				return true
@@ -975,6 +1136,8 @@ func c06SyncUnchanged(c *eng.Ctx, iface *types.Interface, named *types.Named, sy
 		}
 		return false
 	}
+	// a call of a helper in which an effect is reachable is an effect
+	isEffect := eng.LiftMay(isEffect0)
 	brs := eng.BranchesOn(eq)
 	if len(brs) == 0 {
 		c.Fail("R3", sync, "unchanged configuration ⇒ no effect", eq.Pos(), "the result of the comparison is not branched on")
@@ -1007,61 +1170,114 @@ func c06SyncUnchanged(c *eng.Ctx, iface *types.Interface, named *types.Named, sy
 func c06R4(c *eng.Ctx, iface *types.Interface) {
 	sl := c.Slicer().WithArgs()
 	sites := 0
+	is429 := func(ins ssa.Instruction) bool {
+		call, ok := ins.(*ssa.Call)
+		if !ok {
+			return false
+		}
+		// an error responder: a repository function receiving the 429 status
+		f := eng.CalleeFn(call)
+		if f == nil || f.Pkg == nil || !eng.IsRepoPkg(f.Pkg.Pkg.Path()) {
+			return false
+		}
+		for _, a := range call.Call.Args {
+			if sl.DerivesFrom(a, func(v ssa.Value) bool { return eng.IsResultOf(v, c06TooMany) }) {
+				return true
+			}
+		}
+		return false
+	}
+	isForward := func(ins ssa.Instruction) bool {
+		call, ok := ins.(ssa.CallInstruction)
+		if !ok {
+			return false
+		}
+		if eng.IsCall(call, "("+pkgClusters+".EndpointPicker).Pop", pkgDispatcher+".NewUpgradeAwareHandler", pkgDispatcher+".newRequestForProxy", pkgRequest+".SetProxyForwarded") {
+			return true
+		}
+		return eng.MethodNameIs(call, "ServeHTTP") || eng.MethodNameIs(call, "RoundTrip")
+	}
+	// the answer / the forwarding may have been moved into a helper: a call of a function
+	// that answers 429 on every path counts as the answer, a call of a function in which
+	// forwarding is reachable counts as forwarding
+	answers429 := eng.LiftMust(is429)
+	mayForward := eng.LiftMay(isForward)
+	// refusedPaths: on the edges where the admission decision val is false, is the 429 answer
+	// passed on every path to an exit / is forwarding unreachable
+	refusedPaths := func(val ssa.Value) (branched, answered, notForwarded bool) {
+		var brs []eng.BoolBranch
+		if val != nil {
+			brs = eng.BranchesOn(val)
+		}
+		if len(brs) == 0 {
+			return false, false, false
+		}
+		answered, notForwarded = true, true
+		for _, br := range brs {
+			if eng.ReachFromBlock(br.OnFalse, eng.PathQuery{Target: eng.IsExit, Avoid: answers429}) != nil {
+				answered = false
+			}
+			if eng.ReachFromBlock(br.OnFalse, eng.PathQuery{Target: mayForward}) != nil {
+				notForwarded = false
+			}
+		}
+		return true, answered, notForwarded
+	}
+	// helpers that acquire on behalf of their caller and report the outcome faithfully (C05.R1,
+	// acquireWrapperParam): the refusal is answered either inside the helper or on the refused
+	// edge of each of its call sites; forwarding must be unreachable from both
+	wrappers := c05PairingSpec(c, iface).wrappers
+	insideAnswered := map[*ssa.Function]bool{}
+	for w := range wrappers {
+		for _, ci := range eng.Calls(w) {
+			if isFCCall(ci, iface, "TryAcquire") {
+				_, a, _ := refusedPaths(eng.ResultValue(ci))
+				insideAnswered[w] = a
+			}
+		}
+	}
 	for _, fn := range c.W.AllRepoFuncs() {
 		if inFlowControlPkgs(fn) {
 			continue
 		}
 		k := 0
 		for _, ci := range eng.Calls(fn) {
+			var wrapper *ssa.Function
 			if !isFCCall(ci, iface, "TryAcquire") {
-				continue
+				f := ci.Common().StaticCallee()
+				if _, isW := wrappers[f]; f == nil || !isW {
+					continue
+				}
+				wrapper = f
 			}
 			k++
 			sites++
-			val := eng.ResultValue(ci)
-			var brs []eng.BoolBranch
-			if val != nil {
-				brs = eng.BranchesOn(val)
-			}
-			if len(brs) == 0 {
-				c.Fail("R4", fn, fmt.Sprintf("refused#%d ⇒ 429", k), ci.Pos(), "the result of TryAcquire is not branched on")
-				continue
-			}
-			is429 := func(ins ssa.Instruction) bool {
-				call, ok := ins.(*ssa.Call)
-				if !ok {
-					return false
-				}
-				// an error responder: a repository function receiving the 429 status
-				f := eng.CalleeFn(call)
-				if f == nil || f.Pkg == nil || !eng.IsRepoPkg(f.Pkg.Pkg.Path()) {
-					return false
-				}
-				for _, a := range call.Call.Args {
-					if sl.DerivesFrom(a, func(v ssa.Value) bool { return eng.IsResultOf(v, c06TooMany) }) {
-						return true
+			branched, answered, notForwarded := refusedPaths(eng.ResultValue(ci))
+			_, selfWrapper := wrappers[fn]
+			switch {
+			case wrapper != nil:
+				// a call of a wrapper: answered inside it or here
+				answered = insideAnswered[wrapper] || (branched && answered)
+			case selfWrapper && wrapper == nil:
+				// the acquire inside a wrapper: answered here, or at every call site of the wrapper
+				// (a faithful wrapper returns false exactly on refusal)
+				if !(branched && answered) {
+					all := len(c.W.LiftSites(fn)) > 0
+					for _, s := range c.W.LiftSites(fn) {
+						if b2, a2, _ := refusedPaths(eng.ResultValue(s)); !b2 || !a2 {
+							all = false
+						}
+					}
+					answered = all
+					if !branched {
+						// `return limiter.TryAcquire()`: the decision is taken by the callers
+						branched, notForwarded = all, true
 					}
 				}
-				return false
 			}
-			isForward := func(ins ssa.Instruction) bool {
-				call, ok := ins.(ssa.CallInstruction)
-				if !ok {
-					return false
-				}
-				if eng.IsCall(call, "("+pkgClusters+".EndpointPicker).Pop", pkgDispatcher+".NewUpgradeAwareHandler", pkgDispatcher+".newRequestForProxy", pkgRequest+".SetProxyForwarded") {
-					return true
-				}
-				return eng.MethodNameIs(call, "ServeHTTP") || eng.MethodNameIs(call, "RoundTrip")
-			}
-			answered, notForwarded := true, true
-			for _, br := range brs {
-				if eng.ReachFromBlock(br.OnFalse, eng.PathQuery{Target: eng.IsExit, Avoid: is429}) != nil {
-					answered = false
-				}
-				if eng.ReachFromBlock(br.OnFalse, eng.PathQuery{Target: isForward}) != nil {
-					notForwarded = false
-				}
+			if !branched {
+				c.Fail("R4", fn, fmt.Sprintf("refused#%d ⇒ 429", k), ci.Pos(), "the result of TryAcquire is not branched on")
+				continue
 			}
 			c.Check("R4", fn, fmt.Sprintf("refused#%d ⇒ 429", k), ci.Pos(), answered, "every path from the refused edge to the exit must hand a NewTooManyRequests status to the error responder (otherwise the client sees no 429 / an empty 200)")
 			c.Check("R4", fn, fmt.Sprintf("refused#%d ⇒ not forwarded", k), ci.Pos(), notForwarded, "from the refused edge neither endpoint selection nor the proxy handler may be reachable (a refused request must not reach the upstream)")
